@@ -191,6 +191,65 @@ def frame_duration_store(ctx, rule, bindings=None):
                      % (show(idx), show(val), 'unconditionally' if always else 'ONLY CONDITIONALLY'), site[2], key=pf.name + '|%s|store' % rule)
 
 
+def tables_accumulate(ctx, rule):
+    """the tables that collect entities across chunks (layers, slices, external files, tilesets, the cel grid) are only ever grown
+    while frames are parsed: push / insert / resize, never a whole-field assignment that would drop what earlier chunks put there
+    (seed C01-q rebuilt the external-file map from each chunk's entry list "in one go": only the last chunk's files survived)"""
+    fx = ctx.fx
+    pf = ctx.anchor('asefile::parse::parse_frame')
+    if pf is None:
+        return
+    E = effects.get(fx)
+    pis = [i for i in range(1, pf.arg_count + 1) if pf.locals[i]['ty'].replace(' ', '') == '&mutparse::ParseInfo']
+    if not pis:
+        ctx.fail(pf.name + '|%s|no-parse-info' % rule, 'parse_frame has no &mut ParseInfo parameter')
+        return
+    grown = {}
+    bad = []
+    for w in E.writes(pf):
+        root, path = effects.root_of(w[0])
+        if root != pis[0] or not path or path[0] not in ('layers', 'slices', 'external_files', 'tilesets', 'framedata'):
+            continue
+        grown.setdefault(path[0], set()).add(w[2])
+        if w[2] == 'assign' and '[]' not in path and len(path) <= (2 if path[0] == 'framedata' else 1):
+            bad.append((path, w[3]))
+    for path, site in bad:
+        ctx.inst(rule, 'ParseInfo.%s' % '.'.join(path), False, 'ParseInfo.%s is reassigned as a whole in %s while chunks are parsed: entities of earlier chunks are dropped'
+                 % ('.'.join(path), site[0].split('::')[-1]), site[2], key=ctx.key(pf.name, rule, 'accumulate', path[0]))
+    ctx.inst(rule, 'accumulating tables', not bad, 'tables written while parsing: %s; none is reassigned as a whole' % {k: sorted(v) for k, v in sorted(grown.items())},
+             pf.span, key=pf.name + '|%s|accumulate' % rule)
+    ctx.floor('accumulating tables written by parse_frame', len(grown), 5)
+
+
+def reader_string(ctx, rule):
+    """STRING = little-endian WORD length, exactly that many bytes, String::from_utf8 of them as read"""
+    fx = ctx.fx
+    sb_ = ctx.anchor(common.READER + 'string', 'reader primitive')
+    if sb_ is not None:
+        # the length is the little-endian WORD, read directly or through the sibling primitive word() (itself checked above)
+        cs = [c for c in q.calls(sb_) if c.callee.startswith(('byteorder::', 'std::io::Read::')) or q.callee_name(c).startswith(common.READER)]
+        names = [q.callee_name(c).split('::')[-1] for c in cs]
+        ok = (names == ['read_u16', 'read_exact'] and any('LittleEndian' in a for a in cs[0].fn.get('args', []))) or \
+            (names == ['word', 'read_exact'] and is_param(q.arg_terms(cs[0])[0], 1))
+        if ok:
+            buf = q.arg_terms(cs[1])[1]
+            ln = buf[2][1] if buf[0] == 'call' and buf[1].endswith('from_elem') else None
+            ok = ln is not None and strip_casts(ln)[0] == 'call' and strip_casts(ln)[3] == (sb_.name, cs[0].bb) and \
+                all(layout.value_preserving(a, b_) for a, b_ in q.casts_on(ln)[0])
+            t = res(sb_).ok_ret()
+            ok = ok and t[0] == 'call' and t[1] == 'std::string::String::from_utf8' and t[2][0] == buf
+            # .. of them as read: nothing else touches the buffer between the read and the decoding (seeds C01-r / C10-r stripped
+            # trailing NUL bytes "for exporters that count the terminator"), so no loop and no call besides the plumbing of these three
+            plumbing = {'std::ops::DerefMut::deref_mut', 'std::ops::Deref::deref', 'std::ops::FromResidual::from_residual', 'std::ops::Try::branch',
+                        'std::vec::from_elem', 'std::string::String::from_utf8', 'std::convert::From::from', 'std::convert::Into::into',
+                        'std::result::Result::map_err', 'std::result::Result::map'}
+            others = sorted({q.callee_name(c) for c in q.calls(sb_) if c not in cs and q.callee_name(c) not in plumbing
+                             and not q.callee_name(c).startswith('std::convert::From::from')})
+            ok = ok and not others and not sb_.cfg.loops
+        ctx.inst(rule, 'reader.string', ok, 'string() reads %s; must be a little-endian WORD length, exactly that many bytes, String::from_utf8 of them'
+                 % names, sb_.span, key=sb_.name + '|%s' % rule)
+
+
 def run(ctx):
     fx = ctx.fx
     spec = SP.load_spec()
@@ -243,22 +302,7 @@ def run(ctx):
         ctx.inst('L0', 'reader.' + k, ok, '%s() = %s%s on self.input, returned unchanged; must be %s %s' % (
             k, [c.callee.split('::')[-1] for c in cs], [a for c in cs for a in c.fn.get('args', []) if 'Endian' in a], bo, endian or ''),
             pb.span, key=pb.name + '|L0')
-    sb_ = ctx.anchor(common.READER + 'string', 'reader primitive')
-    if sb_ is not None:
-        # the length is the little-endian WORD, read directly or through the sibling primitive word() (itself checked above)
-        cs = [c for c in q.calls(sb_) if c.callee.startswith(('byteorder::', 'std::io::Read::')) or q.callee_name(c).startswith(common.READER)]
-        names = [q.callee_name(c).split('::')[-1] for c in cs]
-        ok = (names == ['read_u16', 'read_exact'] and any('LittleEndian' in a for a in cs[0].fn.get('args', []))) or \
-            (names == ['word', 'read_exact'] and is_param(q.arg_terms(cs[0])[0], 1))
-        if ok:
-            buf = q.arg_terms(cs[1])[1]
-            ln = buf[2][1] if buf[0] == 'call' and buf[1].endswith('from_elem') else None
-            ok = ln is not None and strip_casts(ln)[0] == 'call' and strip_casts(ln)[3] == (sb_.name, cs[0].bb) and \
-                all(layout.value_preserving(a, b_) for a, b_ in q.casts_on(ln)[0])
-            t = res(sb_).ok_ret()
-            ok = ok and t[0] == 'call' and t[1] == 'std::string::String::from_utf8' and t[2][0] == buf
-        ctx.inst('L0', 'reader.string', ok, 'string() reads %s; must be a little-endian WORD length, exactly that many bytes, String::from_utf8 of them'
-                 % names, sb_.span, key=sb_.name + '|L0')
+    reader_string(ctx, 'L0')
     sk = ctx.anchor(common.READER + 'skip_reserved', 'reader primitive')
     if sk is not None:
         cs = [c for c in q.calls(sk) if c.callee == 'std::io::Read::read_exact']
@@ -448,6 +492,7 @@ def run(ctx):
     import rule as _R9
     _c09p.parent_search(_R9.View(ctx, {'V4': 'O1', 'V5': 'O1'}))     # every legal layer forest is accepted: the parent of a layer is ANY nearest shallower one (seed C01-m wanted level - 1 exactly)
     common.arm_state_independence(ctx, 'O3')
+    tables_accumulate(ctx, 'O3')
     common.rejection_inventory(ctx, 'O3')
 
     # ---------------- O4 lookups / iteration
